@@ -647,7 +647,7 @@ func (rpi *RetentionPolicyInfo) Measurement(name string) *MeasurementInfo {
 func (rpi *RetentionPolicyInfo) validMeasurementShardType(shardType, mstName string) error {
 	var msti *MeasurementInfo
 	for _, mst := range rpi.Measurements {
-		if influx.GetOriginMstName(mst.Name) == mstName {
+		if influx.GetOriginMstName(mst.Name) == mstName && !mst.MarkDeleted {
 			continue
 		}
 		msti = mst
